@@ -550,6 +550,8 @@ pub fn run(p: &Params) -> Report {
         let seed: u64 = r["replay"]["scenario_seed"].as_str().unwrap().parse().unwrap();
         if r["replay"]["kind"] == "forged" {
             scenario_forged(seed, &mut rep);
+        } else if r["replay"]["kind"] == "degenerate-keys" {
+            scenario_degenerate_keys(seed, &mut rep);
         } else {
             scenario(seed, false, 40, &mut rep);
         }
@@ -565,6 +567,8 @@ pub fn run(p: &Params) -> Report {
     for i in 0..f {
         let seed = p.shard_seed(0xF2_0000 + i);
         crate::util::guarded(&mut rep, seed, |rep| scenario_forged(seed, rep));
+        let seed = p.shard_seed(0x0D02_0000 + i);
+        crate::util::guarded(&mut rep, seed, |rep| scenario_degenerate_keys(seed, rep));
     }
     // every single bit of a few datagrams per shard
     let m = p.budget(48, 960);
@@ -576,6 +580,71 @@ pub fn run(p: &Params) -> Report {
     super::sys::run_mixed(p, super::sys::Focus::C02, 0x5C02_0000, 1600, 100_000, &mut rep);
     rep.extra.insert("exhaustive_subspaces".into(), json!(["every single-bit flip of the datagrams selected for the exhaustive pass (one datagram kind and session state per scenario)"]));
     rep
+}
+
+/// After any number of re-keyings of a session, a message from P's address under a key that no
+/// handshake produced - all zero bytes, all ones, a prefix of either node id, an earlier key of
+/// the victim's own direction - is never delivered.
+pub fn scenario_degenerate_keys(seed: u64, rep: &mut Report) {
+    use crate::rig::engine::{Engine, Ev, InClass};
+    use crate::rig::r1::{runtime, RigConfig};
+    let rt = runtime(seed);
+    rt.block_on(async {
+        let mut rng = Rng::new(seed ^ 0x0D02);
+        let mut e = Engine::new(seed, RigConfig::default(), 1, None).await;
+        e.wru_delays = vec![Some(std::time::Duration::ZERO)];
+        e.app_knows_peers = rng.bool();
+        let vid = e.victim_id;
+        let rekeys = rng.usize(5);
+        for k in 0..=rekeys {
+            if k > 0 {
+                e.peer_lose_session(0);
+            }
+            // the peer lost its keys: either it speaks first (its packet is unreadable, the node
+            // drops the session and challenges it) or the node does (its request is challenged by
+            // the peer and the existing session is re-keyed in place)
+            if k == 0 || rng.chance(1, 3) {
+                e.peer_request(0, *rng.pick(&[1u8, 5]));
+                e.drain().await;
+            }
+            if k > 0 || rng.bool() {
+                e.submit(0, 1, true);
+                e.drain().await;
+            }
+        }
+        if e.peers[0].sim.latest(&vid).is_none() {
+            rep.count("degenerate_key_scenarios_without_session");
+            return;
+        }
+        rep.evaluations += 1;
+        rep.count("degenerate_key_scenarios");
+        let pid = e.peers[0].sim.id();
+        let addr = e.peers[0].sim.addr();
+        let mut pid16 = [0u8; 16];
+        pid16.copy_from_slice(&pid[..16]);
+        let mut vid16 = [0u8; 16];
+        vid16.copy_from_slice(&vid[..16]);
+        // the key of the other direction of the current session (never valid for P's messages)
+        let reverse = e.peers[0].sim.latest(&vid).map(|k| k.recv);
+        let mut keys: Vec<(&str, [u8; 16])> = vec![("all zero", [0u8; 16]), ("all ones", [0xFF; 16]), ("prefix of P's node id", pid16), ("prefix of the local node id", vid16)];
+        if let Some(r) = reverse {
+            keys.push(("the session key of the opposite direction", r));
+        }
+        for (name, key) in keys {
+            let probe_id = vec![0x0D, rng.below(256) as u8, rng.below(256) as u8];
+            let m = RefMessage::TalkReq { id: probe_id.clone(), protocol: b"verif".to_vec(), request: b"never encrypted by P".to_vec() };
+            let (b, _) = crate::peer::peersim::message_packet(&mut rng, &pid, &vid, &key, &m.encode());
+            let mark = e.trace.len();
+            e.inject_now(Some(0), addr, b, InClass::Crafted(format!("message under a degenerate key ({name})")));
+            e.drain().await;
+            rep.count("degenerate_key_probes");
+            let delivered = e.trace[mark..].iter().any(|t| matches!(&t.ev, Ev::Out(HandlerOut::Request(_, r)) if r.id.0 == probe_id));
+            if delivered {
+                rep.violation("C02:forged-message-delivered", format!("after {rekeys} re-keyings a message under {name} was delivered as P's request"), json!({"scenario_seed": seed.to_string(), "kind": "degenerate-keys", "rekeys": rekeys, "key": name}));
+            }
+        }
+        rep.fingerprint(&("degenerate-keys", rekeys));
+    });
 }
 
 /// A message inside a handshake that was not made with P's key must never be delivered as P's:
